@@ -7,13 +7,17 @@ def check(run):
     n = 5 if thorough else 4
     run.rules.append("leg M/R: (a) every token string of <= %d tokens over {n x - * = == not in ! ++ ? : ( )} explored lazily by TLC through the Pratt machine; "
                      "(b) sentence families: all 32x32 ordered pairs of built-in infix operators in 6 shapes (plain, negated, parenthesised), all triples over one "
-                     "representative per level/associativity in 4 shapes, 14 decorations (prefix, postfix, conditionals, calls, lists, maps, chains) over "
+                     "representative per level/associativity in 6 shapes (with `not` at each position), all chains of four operators over one operator per precedence level in 3 shapes "
+                     "(and of five over every second level in the thorough tier), 14 decorations (prefix, postfix, conditionals, calls, lists, maps, chains) over "
                      "all representative pairs; the machine must agree with the stratified reference grammar, and every behaviour is replayed in the real parser; "
                      "non-trivial = accepted sentence with at least two operator tokens" % n)
     run.rules.append("leg T: random well-formed programs (up to ~200 tokens) parsed by the real parser, judged by TLC with RefParse on the token sequence the real tokenizer reported")
     pf.model_and_replay(run, "exh-ops", pf.pratt_cfg("exh-ops", lazy=True, maxlen=n, alphabet="OpsAlpha"), "C02", "C02")
     pf.model_and_replay(run, "pairs", pf.pratt_cfg("pairs", lazy=False, source="PairSource", firstset="PairSet"), "C02", "C02", seeds=[run.seed, run.seed + 1] if thorough else None)
     pf.model_and_replay(run, "triples", pf.pratt_cfg("triples", lazy=False, source="TripleSource", firstset="TripleSet"), "C02", "C02")
+    pf.model_and_replay(run, "quads", pf.pratt_cfg("quads", lazy=False, source="QuadSource", firstset="QuadSet"), "C02", "C02")
+    if thorough:
+        pf.model_and_replay(run, "quints", pf.pratt_cfg("quints", lazy=False, source="QuintSource", firstset="QuintSet"), "C02", "C02")
     pf.model_and_replay(run, "decor", pf.pratt_cfg("decor", lazy=False, source="DecorSource", firstset="DecorSet"), "C02", "C02")
     pf.trace_validate(run, "wf", 12000 if thorough else 1600, run.seed, 0, "C02", "C02")
     if thorough:
